@@ -322,7 +322,7 @@ func buildAuth(domains []string) *authWorld {
 
 func (a *authWorld) do(req *http.Request) *httptest.ResponseRecorder {
 	a.last, a.lastN = nil, ""
-	return wireOf(a.h).roundTrip(req)
+	return wireOf(a, a.h).roundTrip(req)
 }
 
 // newReq builds the request a server would hand to the handler; ok=false when net/http itself
@@ -485,7 +485,7 @@ func (w *world) proxyCallback(payload string) {
 	if !ok {
 		return
 	}
-	rec := wireOf(w.proxyW.Handler).roundTrip(req)
+	rec := wireOf(w.proxyW, w.proxyW.Handler).roundTrip(req)
 	if rec == nil {
 		return
 	}
@@ -501,14 +501,14 @@ func (w *world) proxyXHR(payload string) {
 		return
 	}
 	req.Header.Set("X-Requested-With", "XMLHttpRequest")
-	rec := wireOf(w.proxyW.Handler).roundTrip(req)
+	rec := wireOf(w.proxyW, w.proxyW.Handler).roundTrip(req)
 	if rec == nil {
 		return
 	}
 	benign := ""
 	if reqB, ok := newReq("GET", proxyHost, "/oauth2/callback?error=benign"); ok {
 		reqB.Header.Set("X-Requested-With", "XMLHttpRequest")
-		if recB := wireOf(w.proxyW.Handler).roundTrip(reqB); recB != nil {
+		if recB := wireOf(w.proxyW, w.proxyW.Handler).roundTrip(reqB); recB != nil {
 			benign = recB.Body.String()
 		}
 	}
@@ -597,7 +597,7 @@ func (w *world) authSignIn(a *authWorld, hostLabel, rawExtra, escExtra string, m
 	if u, err := url.Parse(redirect); err != nil || u.Host == "" {
 		redirect = "https://app.example.test/oauth2/callback?x=" + url.QueryEscape(escExtra)
 	}
-	ts := time.Now().Unix()
+	ts := nowTS()
 	q := "client_id=" + proxyClientID + "&redirect_uri=" + url.QueryEscape(redirect) + "&sig=" + url.QueryEscape(sign(redirect, ts)) +
 		"&ts=" + fmt.Sprint(ts) + "&y=" + url.QueryEscape(escExtra)
 	if rawQueryable(rawExtra) {
@@ -866,7 +866,7 @@ func main() {
 	nSites := n / 12
 	nDirect := n / 16
 	nJSON := n / 5
-	nHole := n - nHandler - nDirect - nJSON - 2*nSites
+	nHole := n - nHandler - nDirect - nJSON - nSites
 	for i := 0; i < nHandler; i++ {
 		aw := w.auths[r.Intn(len(w.auths))]
 		switch r.Intn(6) {
@@ -896,6 +896,7 @@ func main() {
 	for i := 0; i < nSites; i++ {
 		w.siteRandom(r)
 	}
+	curMode, curTS = rmode{}, 0
 	for i := 0; i < nDirect; i++ {
 		w.directPage(r)
 	}
